@@ -221,6 +221,7 @@ pub fn run(ctx: &mut Ctx) {
         ctx.floor(r, m);
     }
     ctx.floor("lencorrupt.cases", 20_000);
+    ctx.floor("lenparam.cases", 8_000);
     ctx.floor("ch.versions", 65536);
 
     // ------------------------------------------------ round trips
@@ -481,6 +482,61 @@ pub fn run(ctx: &mut Ctx) {
                 if !out.is_incomplete() {
                     ctx.violation(format!("c04:must-reject:R11:{}", if out.is_ok() { "accepted" } else { "not-incomplete" }), json!({"cut": cut, "outcome": out.show(), "input_hex": hex_short(input)}));
                 }
+            }
+        }
+    });
+
+
+    // ------------------------------------------------ body parsers taking the declared length as a parameter:
+    // they must consume exactly `len` bytes of a longer buffer and refuse a shorter one
+    let n = ctx.tier.pick(6_000, 60_000);
+    ctx.family("len-param-body-parsers", n, |ctx, case: &mut Case| {
+        let r = &mut case.rng;
+        let variant = [4usize, 8, 10, 11, 12, 13][(case.idx % 6) as usize];
+        let v = gen::hs_variant(r, gen::SMALL, variant);
+        let body = v.body_bytes();
+        let n = body.len();
+        let x = gen::opaque_min(r, 1, 40);
+        let mut long = body.clone();
+        long.extend_from_slice(&x);
+        let exp = v.expected();
+        type F = for<'a> fn(&'a [u8], usize) -> IResult<&'a [u8], TlsMessageHandshake<'a>>;
+        let (name, f): (&'static str, F) = match variant {
+            4 => ("parse_tls_handshake_msg_newsessionticket", parse_tls_handshake_msg_newsessionticket),
+            8 => ("parse_tls_handshake_msg_serverkeyexchange", parse_tls_handshake_msg_serverkeyexchange),
+            10 => ("parse_tls_handshake_msg_serverdone", parse_tls_handshake_msg_serverdone),
+            11 => ("parse_tls_handshake_msg_certificateverify", parse_tls_handshake_msg_certificateverify),
+            12 => ("parse_tls_handshake_msg_clientkeyexchange", parse_tls_handshake_msg_clientkeyexchange),
+            _ => ("parse_tls_handshake_msg_finished", parse_tls_handshake_msg_finished),
+        };
+        // longer buffer: value unchanged, remainder = the extra bytes (by address)
+        if let Some((out, eq, dbg)) = ctx.guarded(name, &long, || {
+            let res = f(&long, n);
+            let out = classify(&res);
+            match &res {
+                Ok((_, g)) => (out, Some(*g == exp), format!("{:.200?}", g)),
+                Err(_) => (out, None, String::new()),
+            }
+        }) {
+            ctx.eval();
+            ctx.count("lenparam.cases");
+            ctx.shape(&(name, "longer", lc(n), out.class()));
+            if !(eq == Some(true) && out.rem_is_suffix(&long, n)) {
+                ctx.violation(
+                    format!("c04:len-param:{}:{}", name, if eq.is_none() { "rejected-with-trailing-bytes" } else if eq == Some(false) { "reads-beyond-declared-length" } else { "remainder-wrong" }),
+                    json!({"parser": name, "declared_len": n, "buffer_len": long.len(), "observed": dbg, "outcome": out.show(), "input_hex": hex_short(&long)}),
+                );
+            }
+        }
+        // shorter buffer: the declared length is not available => no value
+        if n > 0 && (variant != 4 || n > 4) {
+            let cut = r.usize(if variant == 4 { 4 } else { 0 }, n - 1);
+            let res = f(&body[..cut], n);
+            ctx.eval();
+            ctx.count("lenparam.cases");
+            ctx.shape(&(name, "shorter", lc(n), res.is_ok()));
+            if res.is_ok() {
+                ctx.violation(format!("c04:len-param:{}:accepts-buffer-shorter-than-declared", name), json!({"parser": name, "declared_len": n, "buffer_len": cut, "input_hex": hex_short(&body[..cut])}));
             }
         }
     });
